@@ -554,6 +554,11 @@ impl Write for SimFile {
         let off = self.pos;
         if let Some(f) = e.tick(IoKind::Write, self.id, Some(self.role)) {
             e.log(IoEvent { file: self.id, kind: IoKind::Write, off, req: buf.len() as u64, out: -2 });
+            if io_kind_for(f.err, IoKind::Write) == io::ErrorKind::WriteZero && (f.err / 9) % 2 == 1 && !buf.is_empty() {
+                // the other way a sink reports "cannot take any more": it accepts zero bytes
+                e.fx.inc("fired.write_accepts_zero_bytes");
+                return Ok(0);
+            }
             return Err(Self::fault_err(io_kind_for(f.err, IoKind::Write), f.k));
         }
         if buf.is_empty() {
